@@ -373,7 +373,7 @@ func Run(c *run.Ctx) {
 	if c.Flavour == "race" {
 		// the race flavour only adds the concurrent evaluators (its reports are
 		// collected by the orchestrator)
-		concurrent(c, forKeys, c.N(0, 600))
+		concurrent(c, forKeys, c.N(0, 1000))
 		return
 	}
 	phase := func(name string, f func()) {
@@ -386,7 +386,7 @@ func Run(c *run.Ctx) {
 	phase("diff", func() { diffs(c, forKeys) })
 	phase("lift", func() { lifts(c, forKeys) })
 	phase("funcs", func() { funcsCases(c, forKeys) })
-	phase("conc", func() { concurrent(c, forKeys, c.N(240, 2400)) })
+	phase("conc", func() { concurrent(c, forKeys, c.N(320, 4000)) })
 	phase("live", func() { live(c) })
 	phase("cli", func() { cliCases(c) })
 	if n := atomic.LoadInt64(&nJudged); n > 200 && atomic.LoadInt64(&nAbstain)*5 > n {
@@ -429,7 +429,7 @@ func modeOf(r *run.Rand) float64 {
 }
 
 func diffs(c *run.Ctx, forKeys bool) {
-	N := c.N(12000, 150000)
+	N := c.N(40000, 450000)
 	for i := 0; i < N; i++ {
 		if !c.Mine(i) {
 			continue
@@ -466,7 +466,7 @@ func diffs(c *run.Ctx, forKeys bool) {
 }
 
 func lifts(c *run.Ctx, forKeys bool) {
-	N := c.N(8000, 100000)
+	N := c.N(24000, 300000)
 	for i := 0; i < N; i++ {
 		if !c.Mine(i) {
 			continue
@@ -507,7 +507,7 @@ func lifts(c *run.Ctx, forKeys bool) {
 }
 
 func funcsCases(c *run.Ctx, forKeys bool) {
-	N := c.N(6000, 75000)
+	N := c.N(20000, 225000)
 	for i := 0; i < N; i++ {
 		if !c.Mine(i) {
 			continue
